@@ -62,9 +62,18 @@ def make_run(opname, version):
     v3 = version.startswith("v3")
     reboot = version.endswith("+reboot")
     version = version.replace("+reboot", "")
+    # "@2038" / "@2106": wall clock beyond 2^31 / 2^32 s (the request id is
+    # derived from it and no longer fits 31 / 32 bits)
+    epoch = None
+    if "@" in version:
+        version, year = version.split("@")
+        epoch = {"2038": 2.0**31 + 1000, "2106": 2.0**32 + 1000}[year]
 
     def run(ctx):
-        CLOCK.reset()
+        if epoch is None:
+            CLOCK.reset()
+        else:
+            CLOCK.reset(epoch)
         world.reset_plugins()
         if v3:
             _, level, method = version.split(":")
@@ -232,6 +241,11 @@ def shards(tier):
     for version in ["v2c", "v1"] + v3s:
         for opname in OPS:
             if version == "v1" and opname in NO_V1:
+                continue
+            out.append({"op": opname, "version": version, "tier": tier})
+    for version in ["v2c@2038", "v1@2038", "v3:authNoPriv:md5@2038", "v2c@2106"]:
+        for opname in ("get", "multiset", "bulkget", "walk", "bulkwalk"):
+            if version.startswith("v1") and opname in NO_V1:
                 continue
             out.append({"op": opname, "version": version, "tier": tier})
     return out
